@@ -224,6 +224,16 @@ Theorem mono_refuted_when_base_lt_min :
   calc_base_fee k2_params 5 (Some 20) 11 = RVal 101.
 Proof. vm_compute. repeat split. Qed.
 
+(** The minimum gas price acts through its integer part only: with a fractional
+    minimum the literal reading "never below the minimum gas price" fails by
+    less than one unit.  Base fee 1, minimum 0.5, target 10, denominator 1,
+    empty block: the new base fee is 0. *)
+Definition frac_params : params := mkparams false 1 1 (Some 1) 0 half half.
+
+Theorem floor_fractional_min_refuted :
+  calc_base_fee frac_params 5 (Some 10) 0 = RVal 0 /\ of_int 0 < p_min_gas_price frac_params.
+Proof. vm_compute. split; reflexivity. Qed.
+
 (** * the gas figure *)
 
 Lemma is_uint64_spec x : is_uint64 x = true <-> 0 <= x <= max_uint64.
@@ -323,7 +333,7 @@ Proof.
     destruct (Z.lt_trichotomy g (target p mg)) as [L|[E|G]].
     + apply Hlt; assumption.
     + rewrite (He E). assumption.
-    + destruct (Hgt G) as (_ & _ & _ & Hv). lia.
+    + destruct (Hgt G) as (_ & _ & _ & Hv). clear - Hv Hm. lia.
 Qed.
 
 Lemma block_preserves s b s' : block s b = Some s' -> base_ge_min s ->
